@@ -400,3 +400,297 @@ Proof.
   rewrite str_from_3 by exact Hss. cbn [bind pbind pok]. rewrite Ei. cbn [bind].
   rewrite consume_suffix_exact; try assumption; [reflexivity|lia].
 Qed.
+
+Lemma month_val_range v : In v (map snd SHORT_MONTH_ARMS) -> 0 <= v <= 11.
+Proof. cbn. intros H. repeat (destruct H as [H|H]; [lia|]). contradiction. Qed.
+
+Lemma eff_code_month p m : eff_of (W_code 7 m) p = setq (Model.Parsed.set_month p m).
+Proof. reflexivity. Qed.
+Lemma eff_code_nano p v : eff_of (W_code 19 v) p = setq (Model.Parsed.set_nanosecond p v).
+Proof. reflexivity. Qed.
+Lemma eff_code_offset p v : eff_of (W_code 21 v) p = setq (Model.Parsed.set_offset p v).
+Proof. reflexivity. Qed.
+
+Lemma add_i64_small a b : -1000000 <= a <= 1000000 -> -1000000 <= b <= 1000000 -> add_i64 a b = Val (a + b).
+Proof. intros Ha Hb. unfold add_i64. apply chk_in. unfold in_i64, in_range, i64_min, i64_max. lia. Qed.
+
+Lemma reads_dot_nano_sound t rest w :
+  match t with
+  | [] => if starts_with_byte rest 46 then None else Some W_none
+  | c :: ds =>
+      if (c =? 46) && all_dig ds && (1 <=? blen ds) && not_digit_start rest && utf8_valid rest
+      then Some (W_code 19 (nano_value ds)) else None
+  end = Some w ->
+  forall p, parse_dot_nanosecond p (t ++ rest) = (let+ p' := eff_of w p in pok (p', rest)).
+Proof.
+  intros H p. unfold parse_dot_nanosecond. destruct t as [|c ds].
+  - cbn [app]. destruct (starts_with_byte rest 46); [discriminate|]. injection H as <-. reflexivity.
+  - destruct ((c =? 46) && all_dig ds && (1 <=? blen ds) && not_digit_start rest && utf8_valid rest) eqn:Ec; [|discriminate].
+    injection H as <-. do 4 (apply andb_prop in Ec; destruct Ec as [Ec ?]).
+    assert (c = 46) by lia. subst c. cbn [app starts_with_byte]. change (46 =? 46) with true. cbv iota.
+    pose proof (digits_utf8 ds rest H2 H) as Hv.
+    rewrite str_from_1 by (apply utf8_valid_starts_ok; exact Hv). cbn [bind].
+    rewrite nanosecond_ok by exact Hv. unfold nanosecond_pure. rewrite digit_run_app by assumption.
+    destruct ds as [|d0 ds0]; [rewrite blen_nil in H1; lia|].
+    cbn [pbind bind]. rewrite eff_code_nano. reflexivity.
+Qed.
+
+Lemma scale_fixed_index d sc : 1 <= d <= 9 -> index SCALE_FIXED d = Val sc -> sc = 10 ^ (9 - d).
+Proof.
+  intros H. assert (d = 1 \/ d = 2 \/ d = 3 \/ d = 4 \/ d = 5 \/ d = 6 \/ d = 7 \/ d = 8 \/ d = 9) as Hd by lia.
+  destruct Hd as [->|[->|[->|[->|[->|[->|[->|[->| ->]]]]]]]]; intros [= <-]; reflexivity.
+Qed.
+
+Lemma reads_nodot_sound idx t rest w :
+  match zassoc idx P_NODOT with
+  | Some (minlen, d) =>
+      if (blen t =? d) && (minlen <=? d) && (1 <=? d) && (d <=? 9) && all_dig t && utf8_valid rest then
+        match index SCALE_FIXED d with
+        | Val sc => Some (W_code 19 (digits_value t 0 * sc))
+        | _ => None
+        end
+      else None
+  | None => None
+  end = Some w ->
+  forall p, parse_nodot p (t ++ rest) idx = (let+ p' := eff_of w p in pok (p', rest)).
+Proof.
+  intros H p. unfold parse_nodot. destruct (zassoc idx P_NODOT) as [[minlen d]|]; [|discriminate].
+  destruct ((blen t =? d) && (minlen <=? d) && (1 <=? d) && (d <=? 9) && all_dig t && utf8_valid rest) eqn:Ec; [|discriminate].
+  do 5 (apply andb_prop in Ec; destruct Ec as [Ec ?]).
+  destruct (index SCALE_FIXED d) as [sc| |] eqn:Ei; try discriminate. injection H as <-.
+  rewrite blen_app. pose proof (blen_nonneg rest). replace (blen t + blen rest <? minlen) with false by lia.
+  unfold nanosecond_fixed.
+  pose proof (digits_value_bound t 0 H1 ltac:(lia)) as Hb.
+  assert (Hpow : 10 ^ blen t <= 10 ^ 9) by (apply Z.pow_le_mono_r; lia).
+  change (10 ^ 9) with 1000000000 in Hpow.
+  rewrite number_on_digits; try assumption; try lia.
+  2:{ unfold i64_max. lia. }
+  cbn [pbind bind]. rewrite Ei. cbn [bind].
+  pose proof (scale_fixed_index d sc ltac:(lia) Ei) as Hsc.
+  assert (Hsc' : 1 <= sc <= 100000000).
+  { subst sc. split.
+    - assert (0 < 10 ^ (9 - d)) by (apply Z.pow_pos_nonneg; lia). lia.
+    - change 100000000 with (10 ^ 8). apply Z.pow_le_mono_r; lia. }
+  pose proof (digits_value_mono t 0 H1 ltac:(lia)) as Hm.
+  unfold checked_mul. rewrite chko_in.
+  2:{ unfold in_i64, in_range, i64_min, i64_max.
+      assert (digits_value t 0 * sc <= 1000000000 * 100000000) by (apply Z.mul_le_mono_nonneg; lia).
+      assert (0 <= digits_value t 0 * sc) by (apply Z.mul_nonneg_nonneg; lia). lia. }
+  rewrite eff_code_nano. reflexivity.
+Qed.
+
+Lemma reads_offset_sound flags t rest w : reads_offset flags t rest = Some w ->
+  forall az am ams p,
+  (let+ '(s, offset) := timezone_offset (trim_start (t ++ rest)) colon_or_space az am ams in
+   let+ p := setq (Model.Parsed.set_offset p offset) in pok (p, s))
+  = (let+ p' := eff_of w p in pok (p', rest)).
+Proof.
+  intros H az am ams p. unfold reads_offset in H.
+  assert (Hgo : forall sg h1 h2 sep m1 m2,
+    (sep = [] \/ sep = [58]) ->
+    (if ((sg =? 43) || (sg =? 45)) && is_ascii_digit h1 && is_ascii_digit h2
+        && (48 <=? m1) && (m1 <=? 53) && is_ascii_digit m2 && utf8_valid rest
+     then Some (W_code 21 (off_value (sg =? 45) h1 h2 m1 m2)) else None) = Some w ->
+    (let+ '(s, offset) := timezone_offset (trim_start ((sg :: h1 :: h2 :: sep ++ [m1; m2]) ++ rest)) colon_or_space az am ams in
+     let+ p := setq (Model.Parsed.set_offset p offset) in pok (p, s))
+    = (let+ p' := eff_of w p in pok (p', rest))).
+  { intros sg h1 h2 sep m1 m2 Hsep Hc.
+    destruct (((sg =? 43) || (sg =? 45)) && is_ascii_digit h1 && is_ascii_digit h2
+              && (48 <=? m1) && (m1 <=? 53) && is_ascii_digit m2 && utf8_valid rest) eqn:Ec; [|discriminate].
+    injection Hc as <-. do 6 (apply andb_prop in Ec; destruct Ec as [Ec ?]).
+    assert (Htrim : trim_start ((sg :: h1 :: h2 :: sep ++ [m1; m2]) ++ rest) = sg :: h1 :: h2 :: sep ++ m1 :: m2 :: rest).
+    { replace ((sg :: h1 :: h2 :: sep ++ [m1; m2]) ++ rest) with ([] ++ sg :: h1 :: h2 :: sep ++ m1 :: m2 :: rest).
+      2:{ cbn [app]. rewrite <- app_assoc. reflexivity. }
+      unfold trim_start. apply trim_prefix; [constructor|]. apply first_cp_byte_not_ws. lia. }
+    rewrite Htrim. rewrite timezone_offset_printed; try assumption; try lia.
+    cbn [pbind bind pok]. rewrite eff_code_offset. reflexivity. }
+  destruct t as [|sg [|h1 [|h2 [|x1 [|x2 [|x3 [|x4 t']]]]]]]; try discriminate.
+  - exact (Hgo sg h1 h2 [] x1 x2 (or_introl eq_refl) H).
+  - destruct (x1 =? 58) eqn:E; [|discriminate]. assert (x1 = 58) by lia. subst x1.
+    exact (Hgo sg h1 h2 [58] x2 x3 (or_intror eq_refl) H).
+Qed.
+
+Lemma reads_ampm_sound t rest w :
+  match t with
+  | [a; b] =>
+      match assoc_bytes (key_of [a; b] P_AMPM_BIT) P_AMPM_ARMS with
+      | Some v => if starts_ok rest then Some (W_ampm v) else None
+      | None => None
+      end
+  | _ => None
+  end = Some w ->
+  forall p, parse_ampm p (t ++ rest) = (let+ p' := eff_of w p in pok (p', rest)).
+Proof.
+  intros H p. destruct t as [|a [|b [|c t']]]; try discriminate.
+  destruct (assoc_bytes (key_of [a; b] P_AMPM_BIT) P_AMPM_ARMS) as [v|] eqn:Ea; [|discriminate].
+  destruct (starts_ok rest) eqn:Es; [|discriminate]. injection H as <-.
+  unfold parse_ampm. cbn [app]. rewrite !blen_cons. change P_AMPM_LEN with 2. pose proof (blen_nonneg rest).
+  replace (1 + (1 + blen rest) <? 2) with false by lia.
+  change (index (a :: b :: rest) 0) with (@Val Z a). change (index (a :: b :: rest) 1) with (@Val Z b). cbn [bind].
+  unfold key_of in Ea. cbn [map] in Ea. rewrite Ea. cbn [eff_of].
+  destruct (setq (Model.Parsed.set_ampm p v)) as [[p'|e]| |]; cbn [pbind bind]; try reflexivity.
+  change P_AMPM_REST with 2. rewrite str_from_2 by exact Es. reflexivity.
+Qed.
+
+Lemma reads_tz_item_sound idx t rest w :
+  match zassoc idx P_TZ_FLAGS with Some flags => reads_offset flags t rest | None => None end = Some w ->
+  forall p, parse_tz_item p (t ++ rest) idx = (let+ p' := eff_of w p in pok (p', rest)).
+Proof.
+  intros H p. unfold parse_tz_item. destruct (zassoc idx P_TZ_FLAGS) as [[[az am] ams]|]; [|discriminate].
+  apply reads_offset_sound with (flags := (az, am, ams)). exact H.
+Qed.
+
+Lemma reads_fixed_sound relaxed spec t rest w : reads_fixed spec t rest = Some w ->
+  forall p, parse_fixed relaxed p (t ++ rest) spec = (let+ p' := eff_of w p in pok (p', rest)).
+Proof.
+  intros H p. destruct spec as [ | | | | | | | | | | | | | | | | | | | i]; cbn [reads_fixed] in H; try discriminate.
+  - (* ShortMonthName *)
+    destruct (reads_name_short_sound _ _ _ _ _ _ short_month0 short_month0_unfold H) as (v & -> & Ha & Hs).
+    cbn [parse_fixed]. rewrite Hs. cbn [pbind bind pok].
+    pose proof (month_val_range v (assoc_bytes_in _ _ _ Ha)).
+    rewrite add_i64_small by lia. cbn [bind]. rewrite eff_code_month. reflexivity.
+  - (* LongMonthName *)
+    destruct (reads_name_long_sound _ _ _ _ _ _ _ short_month0 short_month0_unfold H) as (v & -> & Ha & Hs).
+    cbn [parse_fixed]. assert (Hsl : short_or_long_month0 (t ++ rest) = pok (rest, v)) by exact Hs.
+    rewrite Hsl. cbn [pbind bind pok].
+    pose proof (month_val_range v Ha).
+    rewrite add_i64_small by lia. cbn [bind]. rewrite eff_code_month. reflexivity.
+  - (* ShortWeekdayName *)
+    destruct (reads_name_short_sound _ _ _ _ _ _ short_weekday short_weekday_unfold H) as (v & -> & Ha & Hs).
+    cbn [parse_fixed]. rewrite Hs. reflexivity.
+  - (* LongWeekdayName *)
+    destruct (reads_name_long_sound _ _ _ _ _ _ _ short_weekday short_weekday_unfold H) as (v & -> & Ha & Hs).
+    cbn [parse_fixed]. assert (Hsl : short_or_long_weekday (t ++ rest) = pok (rest, v)) by exact Hs.
+    rewrite Hsl. reflexivity.
+  - (* LowerAmPm *)
+    cbn [parse_fixed]. apply reads_ampm_sound. exact H.
+  - cbn [parse_fixed]. apply reads_ampm_sound. exact H.
+  - cbn [parse_fixed]. apply reads_dot_nano_sound. exact H.
+  - cbn [parse_fixed]. apply reads_dot_nano_sound. exact H.
+  - cbn [parse_fixed]. apply reads_dot_nano_sound. exact H.
+  - cbn [parse_fixed]. apply reads_dot_nano_sound. exact H.
+  - (* TimezoneOffsetColon *) cbn [parse_fixed]. apply reads_tz_item_sound. exact H.
+  - cbn [parse_fixed]. apply reads_tz_item_sound. exact H.
+  - cbn [parse_fixed]. apply reads_tz_item_sound. exact H.
+  - cbn [parse_fixed]. apply reads_tz_item_sound. exact H.
+  - cbn [parse_fixed]. apply reads_tz_item_sound. exact H.
+  - cbn [parse_fixed]. apply reads_tz_item_sound. exact H.
+  - destruct i; cbn [parse_fixed].
+    + apply reads_tz_item_sound. exact H.
+    + apply reads_nodot_sound. exact H.
+    + apply reads_nodot_sound. exact H.
+    + apply reads_nodot_sound. exact H.
+Qed.
+
+(** * Soundness of [reads_b] for every item *)
+Theorem reads_b_sound relaxed it t rest w : reads_b it t rest = Some w ->
+  item_reads relaxed it t rest (eff_of w).
+Proof.
+  intros H p. destruct it as [l|fw|spec pad|spec|]; cbn [reads_b] in H.
+  - destruct (bytes_eqb t l && starts_ok rest) eqn:Ec; [|discriminate]. injection H as <-.
+    apply andb_prop in Ec. destruct Ec as [El Es]. apply bytes_eqb_eq in El. subst l.
+    rewrite parse_literal_inverse by exact Es. reflexivity.
+  - destruct (forallb ws_byte t && negb (starts_ws rest)) eqn:Ec; [|discriminate]. injection H as <-.
+    apply andb_prop in Ec. destruct Ec as [Ew Er].
+    rewrite parse_space_inverse; [reflexivity|apply forallb_ws_byte; exact Ew|].
+    apply starts_ws_false. destruct (starts_ws rest); [discriminate|reflexivity].
+  - cbn [parse_item]. apply reads_numeric_sound. exact H.
+  - cbn [parse_item]. apply reads_fixed_sound. exact H.
+  - discriminate.
+Qed.
+
+(** * Composition over an item list *)
+Fixpoint text_of (l : list (Item * bytes)) : bytes :=
+  match l with [] => [] | (_, t) :: r => t ++ text_of r end.
+Fixpoint unambiguous_b (l : list (Item * bytes)) (tail : bytes) : option (list write) :=
+  match l with
+  | [] => Some []
+  | (it, t) :: r =>
+      match reads_b it t (text_of r ++ tail), unambiguous_b r tail with
+      | Some w, Some ws => Some (w :: ws)
+      | _, _ => None
+      end
+  end.
+
+Theorem unambiguous_sound relaxed : forall l tail ws, unambiguous_b l tail = Some ws ->
+  forall p, parse_items relaxed p (text_of l ++ tail) (map fst l) =
+            (let+ p' := run_writes ws p in pok (p', tail)).
+Proof.
+  induction l as [|[it t] r IH]; intros tail ws H p.
+  - injection H as <-. reflexivity.
+  - cbn [unambiguous_b] in H.
+    destruct (reads_b it t (text_of r ++ tail)) as [w|] eqn:Ew; [|discriminate].
+    destruct (unambiguous_b r tail) as [ws'|] eqn:Er; [|discriminate]. injection H as <-.
+    cbn [map fst text_of parse_items run_writes]. rewrite <- app_assoc.
+    rewrite (reads_b_sound relaxed it t _ w Ew p).
+    rewrite !pbind_assoc. destruct (eff_of w p) as [[p'|e]| |]; cbn [pbind bind]; try reflexivity.
+    apply (IH tail ws' Er).
+Qed.
+
+(** the whole-input entry: [parse] succeeds exactly with the field record the writes build *)
+Corollary unambiguous_parse l ws p : unambiguous_b l [] = Some ws ->
+  parse p (text_of l) (map fst l) = run_writes ws p.
+Proof.
+  intros H. unfold parse, parse_internal, parse_end.
+  pose proof (unambiguous_sound parse_rfc3339_relaxed l [] ws H p) as Hs. rewrite app_nil_r in Hs.
+  rewrite Hs. rewrite pbind_assoc. destruct (run_writes ws p) as [[p'|e]| |]; reflexivity.
+Qed.
+Corollary unambiguous_parse_and_remainder l tail ws p : unambiguous_b l tail = Some ws ->
+  parse_and_remainder p (text_of l ++ tail) (map fst l) = (let+ p' := run_writes ws p in pok (p', tail)).
+Proof. intros H. exact (unambiguous_sound parse_rfc3339_relaxed l tail ws H p). Qed.
+
+(** [reads_b] only accepts when the reader does not trap on that text *)
+Corollary unambiguous_never_panics l tail ws p : unambiguous_b l tail = Some ws ->
+  run_writes ws p <> Panic -> run_writes ws p <> OutOfFuel ->
+  parse_and_remainder p (text_of l ++ tail) (map fst l) <> Panic /\
+  parse_and_remainder p (text_of l ++ tail) (map fst l) <> OutOfFuel.
+Proof.
+  intros H H1 H2. rewrite (unambiguous_parse_and_remainder l tail ws p H).
+  destruct (run_writes ws p) as [[p'|e]| |]; cbn [pbind bind pok]; split; try discriminate; contradiction.
+Qed.
+
+(** * White space in the format takes the padding of what follows with it
+    A [Space] item trims every white-space character, including the space padding of a following
+    number ("%e", "%_m", "%k" ...).  [absorb] moves that padding into the text attributed to the
+    [Space] item; the concatenated text and the item list are unchanged. *)
+Fixpoint absorb (l : list (Item * bytes)) : list (Item * bytes) :=
+  match l with
+  | [] => []
+  | (it, t) :: r =>
+      match it, absorb r with
+      | Space w, (it2, t2) :: r' => let '(ws, body) := split_ws t2 in (Space w, t ++ ws) :: (it2, body) :: r'
+      | _, r0 => (it, t) :: r0
+      end
+  end.
+Lemma text_of_absorb : forall l, text_of (absorb l) = text_of l.
+Proof.
+  induction l as [|[it t] r IH]; [reflexivity|]. cbn [absorb].
+  destruct it; try (cbn [text_of]; rewrite IH; reflexivity).
+  destruct (absorb r) as [|[it2 t2] r'] eqn:Ea; [cbn [text_of] in *; rewrite <- IH; reflexivity|].
+  destruct (split_ws_spec t2) as [Ht _]. destruct (split_ws t2) as [ws body]. cbn [fst snd] in Ht.
+  cbn [text_of] in *. rewrite <- IH, Ht, <- !app_assoc. reflexivity.
+Qed.
+Lemma map_fst_absorb : forall l, map fst (absorb l) = map fst l.
+Proof.
+  induction l as [|[it t] r IH]; [reflexivity|]. cbn [absorb].
+  destruct it; try (cbn [map fst]; rewrite IH; reflexivity).
+  destruct (absorb r) as [|[it2 t2] r'] eqn:Ea; [cbn [map fst] in *; rewrite <- IH; reflexivity|].
+  destruct (split_ws t2) as [ws body]. cbn [map fst] in *. rewrite <- IH. reflexivity.
+Qed.
+
+Definition unambiguous_ws_b (l : list (Item * bytes)) (tail : bytes) : option (list write) :=
+  unambiguous_b (absorb l) tail.
+Theorem unambiguous_ws_sound relaxed l tail ws : unambiguous_ws_b l tail = Some ws ->
+  forall p, parse_items relaxed p (text_of l ++ tail) (map fst l) =
+            (let+ p' := run_writes ws p in pok (p', tail)).
+Proof.
+  intros H p. rewrite <- text_of_absorb, <- map_fst_absorb. exact (unambiguous_sound relaxed (absorb l) tail ws H p).
+Qed.
+Corollary unambiguous_ws_parse l ws p : unambiguous_ws_b l [] = Some ws ->
+  parse p (text_of l) (map fst l) = run_writes ws p.
+Proof.
+  intros H. rewrite <- text_of_absorb, <- map_fst_absorb. exact (unambiguous_parse (absorb l) ws p H).
+Qed.
+Corollary unambiguous_ws_parse_and_remainder l tail ws p : unambiguous_ws_b l tail = Some ws ->
+  parse_and_remainder p (text_of l ++ tail) (map fst l) = (let+ p' := run_writes ws p in pok (p', tail)).
+Proof. intros H. exact (unambiguous_ws_sound parse_rfc3339_relaxed l tail ws H p). Qed.
